@@ -770,7 +770,11 @@ def check_dispatch(ctx, f, L):
             continue
         ok_args = r[2][0][0] == "ptr" and r[2][0][1] == ("P", "self") and r[2][1] == ("param", "mask")
         role = "roster" if r[1] == names(f).roster else ("king-generator" if r[1] == gen_key(f, "King") else r[1].rsplit("::", 1)[-1])
-        arms[k] = (role, r[3] if len(r) > 3 else (), ok_args)
+        flags_ = r[3] if len(r) > 3 else ()
+        if not flags_:
+            # the check mode handed on as a runtime flag: the one constant bool among the arguments
+            flags_ = tuple("true" if a_ == TRUE else "false" for a_ in r[2] if a_ in (TRUE, FALSE))
+        arms[k] = (role, flags_, ok_args)
     want = {0: ("roster", "false"), 1: ("roster", "true"), "other": ("king-generator", "true")}
     for k, (fn, flag) in want.items():
         got = arms.get(k)
@@ -818,7 +822,14 @@ def check_roster(ctx, f, L):
             # computed, which the generator analysis substitutes for that parameter
             cls = [N._classify(a) for a in e.args]
             wants_flag = "IN_CHECK" in f.bodies[e.name].j["generics"]
-            ok = (flag in e.targs or not wants_flag) and sorted(c for c in cls if c != "bound") == ["listener", "mask", "self"]
+            rt_flag = [a for a in e.args if a in (TRUE, FALSE)]          # the mode as a runtime flag (bound for this analysis)
+            if not wants_flag and rt_flag:
+                wants_flag = True
+                okflag = rt_flag == [TRUE if in_check else FALSE]
+                cls = [c for c, a in zip(cls, e.args) if a not in (TRUE, FALSE)]
+            else:
+                okflag = flag in e.targs
+            ok = (okflag or not wants_flag) and sorted(c for c in cls if c != "bound") == ["listener", "mask", "self"]
             ctx.check(ok, "roster:%s:args" % kind, "generator for %s is not called with (self, mask, listener) and the caller's IN_CHECK: %s %s"
                       % (kind, e.targs, [sym.show(a)[:40] for a in e.args]), loc(body, e.line))
             seen.append(kind)
